@@ -1,6 +1,8 @@
 package main
 
 import (
+	"github.com/zmap/zcrypto/x509"
+	"net"
 	"golang.org/x/net/idna"
 	"fmt"
 	"sort"
@@ -255,6 +257,42 @@ func init() {
 		if tier() == "thorough" {
 			nLint = 800
 		}
+		// direct: the lint reports exactly when the common name (unless empty or an IP address) or some dNSName has no TLD
+		// valid at notBefore (the per-name predicate is compared with the model in the stream "valid")
+		lintDirect := func(c *x509.Certificate, isErr bool, der []byte) {
+			want := false
+			if c.Subject.CommonName != "" && net.ParseIP(c.Subject.CommonName) == nil && !util.HasValidTLD(c.Subject.CommonName, c.NotBefore) {
+				want = true
+			}
+			for _, d := range c.DNSNames {
+				if !util.HasValidTLD(d, c.NotBefore) {
+					want = true
+				}
+			}
+			if want != isErr {
+				out.Violate("C18|lint-disagrees-with-name-predicate", fmt.Sprintf("e_dnsname_not_valid_tld reports error=%v on cn=%q dns=%q at %s although some name lacking a valid TLD = %v", isErr, c.Subject.CommonName, c.DNSNames, c.NotBefore.Format(time.RFC3339), want),
+					map[string]interface{}{"cn": c.Subject.CommonName, "dns": c.DNSNames, "der": hexs(der)}, want, isErr)
+			}
+		}
+		for _, zc := range certZoo() {
+			switch zc.Class {
+			case "name", "related-names", "tld", "many-san":
+				c := zc.Cert
+				inst := l.Lint()
+				if !inst.CheckApplies(c) || c.NotBefore.Year() < 1960 || c.NotBefore.Year() > 2040 {
+					continue
+				}
+				r := inst.Execute(c)
+				isErr := r.Status == lint.Error
+				lintDirect(c, isErr, zc.DER)
+				lst := cqBytesList(c.DNSNames)
+				if len(c.DNSNames) == 0 {
+					lst = "(@nil bytes)"
+				}
+				out.Add("lint", Case{Coq: fmt.Sprintf("(%s, %s, %s, %s, %s)", cqBytes(c.Subject.CommonName), cqBool(util.CommonNameIsIP(c)), lst, instantZ(c.NotBefore), cqBool(isErr)),
+					Tag: fmt.Sprint(isErr), Desc: map[string]interface{}{"cn": c.Subject.CommonName, "dns": c.DNSNames, "notBefore": c.NotBefore.String(), "status": int(r.Status), "zoo": zc.File}})
+			}
+		}
 		for i := 0; i < nLint; i++ {
 			tmpl := leafTemplate()
 			var k string
@@ -282,6 +320,13 @@ func init() {
 			if rng.Intn(5) == 0 {
 				names = append(names, "host.invalidtld")
 			}
+			if rng.Intn(4) == 0 {
+				// a dNSName that is the text of an IP address is a name like any other: its right-most label is no TLD
+				names = append(names, pick(rng, []string{"192.168.0.1", "10.0.0.1", "2001:db8::1", "::1", "1.2.3.4", "8.8.8.8"}))
+				if rng.Bool() {
+					names[0], names[len(names)-1] = names[len(names)-1], names[0]
+				}
+			}
 			tmpl.DNSNames = names
 			switch rng.Intn(4) {
 			case 0:
@@ -303,6 +348,7 @@ func init() {
 			}
 			r := inst.Execute(c)
 			isErr := r.Status == lint.Error
+			lintDirect(c, isErr, der)
 			out.Add("lint", Case{Coq: fmt.Sprintf("(%s, %s, %s, %s, %s)", cqBytes(c.Subject.CommonName), cqBool(util.CommonNameIsIP(c)), cqBytesList(c.DNSNames), instantZ(c.NotBefore), cqBool(isErr)),
 				Tag: fmt.Sprint(isErr), Desc: map[string]interface{}{"cn": c.Subject.CommonName, "dns": c.DNSNames, "notBefore": c.NotBefore.String(), "status": int(r.Status), "der": hexs(der)}})
 		}
